@@ -43,6 +43,7 @@ var files = []fileDef{
 	{"d1", "x2.json", K1, []string{"x"}},
 	{"d1", "y1.json", K1, []string{"y"}},
 	{"d1", "y2.json", K1, []string{"y"}},
+	{"d1", "y3.json", K1, []string{"y"}}, // y: a three-way conflict (x: two-way)
 }
 
 // token -> device string and whether the model says it resolves
@@ -178,9 +179,12 @@ func main() {
 	cache, _ = cdi.NewCache(cdi.WithSpecDirs(filepath.Join(root, "d0"), filepath.Join(root, "d1")), cdi.WithAutoRefresh(false))
 	lateRoot, specRoot = filepath.Join(root, "late"), root
 	_ = os.MkdirAll(lateRoot, 0o755)
-	// sanity of the harness' resolution model against the cache (C01 owns the general rule)
+	// sanity of the harness' resolution model against the cache (C01 owns the general rule): a
+	// name the model resolves must resolve. The other direction is this property's own subject - a
+	// name that must not resolve (unknown, malformed, removed by a conflict) and does will show as
+	// an unresolvable request that succeeds.
 	for _, t := range tokens {
-		if (cache.GetDevice(t.device) != nil) != t.resolve {
+		if t.resolve && cache.GetDevice(t.device) == nil {
 			fmt.Printf("INFRA: harness resolution model disagrees with the cache on %q (C01 territory); C04 cannot be judged\n", t.device)
 			os.RemoveAll(root)
 			os.Exit(2)
